@@ -72,6 +72,13 @@ def construct(tree):
         finally:
             if top:
                 _SHARED["active"] = False
+    if mode.startswith("children-as:"):
+        kw = {}
+        for name, v in tree["kw"]:
+            kw[name] = conv(v)
+            if v is not None and "l" in v and v["l"]:
+                kw[name] = children_as(mode.split(":")[1], kw[name])
+        return cls(**kw)
     if mode == "ctor" or tree["cls"] == "Cell":
         kw = {}
         for name, v in tree["kw"]:
@@ -131,9 +138,48 @@ def fill_by_add(o, tree):
         fill_by_add(ko, k)
 
 
+def number_form(form, text):
+    """the number written `text`, as a value of another numeric python type"""
+    import decimal
+    import fractions
+    import numpy
+    if form == "int":
+        return int(float(text))
+    if form == "numpy.int64":
+        return numpy.int64(int(float(text)))
+    if form in ("numpy.float32", "numpy.float16", "numpy.float64"):
+        return getattr(numpy, form.split(".")[1])(float(text))
+    if form == "Decimal":
+        return decimal.Decimal(text)
+    if form == "Fraction":
+        return fractions.Fraction(float(text))
+    raise ValueError(form)
+
+
+def children_as(form, kids):
+    """a list of children handed over in another container / as a one-shot iterable"""
+    if form == "tuple":
+        return tuple(kids)
+    if form == "generator":
+        return (k for k in kids)
+    if form == "iter":
+        return iter(kids)
+    if form == "map":
+        return map(lambda k: k, kids)
+    if form == "numpy-object-array":
+        import numpy
+        a = numpy.empty(len(kids), dtype=object)
+        for i, k in enumerate(kids):
+            a[i] = k
+        return a
+    raise ValueError(form)
+
+
 def conv(v):
     if v is None:
         return None
+    if "num" in v:
+        return number_form(v["num"]["form"], v["num"]["v"])
     if "s" in v:
         return v["s"]
     if "i" in v:
@@ -433,6 +479,7 @@ def prefixed_loaded(text, order, tmp, ref_dump):
 
 def run_case(case, order, tmp, want):
     r = {}
+    want = case.get("want", want)
     BUILD[0] = case.get("build", "ctor")
     try:
         o = construct(case["tree"])
